@@ -17,7 +17,7 @@ ASSUMPTIONS = ['tag names of the left context in D1 consist of letters, digits, 
                'D1 = lines in which no ">" operator of A (outside [] and {}) is preceded by a blank-, quote-free run containing "=", and no quoted attribute value contains a bracket character',
                'A uses ASCII names, balanced brackets inside [...], balanced (possibly nested) braces inside {...}; stylesheet A has no commas, blanks, quotes or ${...} (function arguments cannot be extracted by design)',
                'an empty abbreviation (line of operators only) is a consistent result',
-               'prefixes used in round trips do not occur inside A']
+               'prefixes used in round trips do not occur inside A, and no prefix is used when the left context contains brackets or braces (the statement promises the exact round trip without a prefix only)']
 ALPHA = ['a', '*', '^', ' ', '>', '+', '[', ']', '{', '}', '(', ')', '"', '=', '<', '/']
 OPTION_SETS = [None, {'lookAhead': False}, {'type': 'stylesheet'}, {'prefix': '<'}, {'prefix': 'a>'}, {'type': 'stylesheet', 'lookAhead': False},
                {'prefix': '<', 'lookAhead': False}]
@@ -221,7 +221,7 @@ def d1_ok(line, a_start, a_end):
 
 
 LEFTS = ['', ' ', '\t', 'foo ', 'foo: ', 'some text ', 'lorem ipsum dolor sit amet, consectetur adipiscing elit, sed do ' * 3, '<div class="a b c d e f" id="x" data-k="v w" hidden>', '<div>', '<div class="x">', '</p>', '<br/>', '<input disabled>', 'text <b>', "<a title='q r'>",
-         '<ul id="a" data-b="c d">', '<DIV CLASS="X Y">', '</P>', '<BR/>', '<Input Disabled>', '<svg:G a:b="c">', '<a\thref="x"\n>', '<p title=\'\'>', '<a b="1"c="2">', '<x-1y>', '<img src="a.png" />', '<p hidden>', '</h1>', '<h2 class="x">', '<x1>', '<col-2 a1>', '</ns:t2>']
+         '<ul id="a" data-b="c d">', '<DIV CLASS="X Y">', '</P>', '<BR/>', '<Input Disabled>', '<svg:G a:b="c">', '<a\thref="x"\n>', '<p title=\'\'>', '<a b="1"c="2">', '<x-1y>', '<div className={styles.box}>', '<button onclick=go()>', '<li v-if=items[0]>', '<a b={x} c=(y)>', '<p a=f(g(1))>', '<q k=[1][2] />', '<img src="a.png" />', '<p hidden>', '</h1>', '<h2 class="x">', '<x1>', '<col-2 a1>', '</ns:t2>']
 LEFTS_D2 = ['<a href=x>', '<div class=y id=z>', '<img src=a.png alt=b>']
 LEFTS_F3 = ['<x-1.y>', '<Foo.Bar>', '<x_y>', '</a.b>', '<my_tag k="v">', '<A.B />']       # tag names with `.` or `_`
 RIGHTS = ['', ' foo', '</div>', '\n']
@@ -251,8 +251,10 @@ def run_shard(desc, ctx):
             for _ in range(3):
                 left = rng.choice(LEFTS)
                 prefix = rng.choice(['', '', '', '<', '%%', 'emm;'])
-                if prefix and prefix in A:
-                    prefix = ''         # documented assumption: the prefix does not occur inside A ("nearest prefix" is the contract)
+                if prefix and (prefix in A or any(c in left for c in '[]{}')):
+                    # documented assumptions: the prefix does not occur inside A ("nearest prefix" is the contract), and the search for it skips
+                    # [..] / {..} pairs without regard to nesting, so a lone bracket in a text of A may pair with one in the left context
+                    prefix = ''
                 look = rng.random() < 0.7
                 right = rng.choice(RIGHTS if look else RIGHTS + RIGHTS_NOLOOK)
                 opt = {} if look else {'lookAhead': False}
